@@ -35,6 +35,31 @@ Proof.
 Qed.
 Print Assumptions C01_reencode.
 
+(* nothing is lost: two valid blocks with the same bytes are the same block, and — the encoding being
+   a prefix code — a valid encoding followed by anything determines the block AND where it ends *)
+Theorem C01_encode_injective : forall ty format f v1 v2 bs,
+  block_fmt ty format = Some f -> wfb f v1 = true -> wfb f v2 = true ->
+  enc f v1 = Some bs -> enc f v2 = Some bs -> v1 = v2.
+Proof.
+  intros ty format f v1 v2 bs Hf H1 H2 E1 E2.
+  pose proof (C01_roundtrip ty format f v1 bs [] Hf H1 E1) as R1.
+  pose proof (C01_roundtrip ty format f v2 bs [] Hf H2 E2) as R2.
+  rewrite R1 in R2. now inversion R2.
+Qed.
+Print Assumptions C01_encode_injective.
+
+Theorem C01_prefix_code : forall ty format f v1 v2 bs1 bs2 r1 r2,
+  block_fmt ty format = Some f -> wfb f v1 = true -> wfb f v2 = true ->
+  enc f v1 = Some bs1 -> enc f v2 = Some bs2 -> bs1 ++ r1 = bs2 ++ r2 ->
+  v1 = v2 /\ bs1 = bs2 /\ r1 = r2.
+Proof.
+  intros ty format f v1 v2 bs1 bs2 r1 r2 Hf H1 H2 E1 E2 Hb.
+  pose proof (C01_roundtrip ty format f v1 bs1 r1 Hf H1 E1) as R1.
+  pose proof (C01_roundtrip ty format f v2 bs2 r2 Hf H2 E2) as R2.
+  rewrite Hb, R2 in R1. inversion R1; subst. rewrite E1 in E2. inversion E2; subst. now repeat split.
+Qed.
+Print Assumptions C01_prefix_code.
+
 (* the gap pattern is a stored field: the view condition inside wfb holds for every frame list
    whose missing frames are canonical (proved for all lengths in SegFacts) *)
 Theorem C01_gaps_preserved : forall fs,
